@@ -1379,6 +1379,37 @@ pub fn body_size_inputs(big: bool) -> Vec<Input> {
             out.push(Input { id: format!("bodysize-{}-{}", size, pos), bytes: d.encode(), source: format!("bodysizes:{}:{}", size, pos) });
         }
     }
+    // the local-declaration prefix of a body: one run of 127 / 128 / 200 used locals of one type (the run count grows to a
+    // two-byte LEB), next to a few of another type, in the first or the last function
+    if !big {
+        use crate::optable::T;
+        for &n in &[127usize, 128, 200] {
+            for pos in 0..2 {
+                let mut d = Desc::default();
+                d.types.push(Sig { params: vec![], results: vec![] });
+                for k in 0..2 {
+                    d.funcs.push(FuncD { ty: 0, imported: false });
+                    let mut locals = vec![];
+                    let mut ins = vec![];
+                    if k == pos {
+                        locals.extend(std::iter::repeat(T::I32).take(n));
+                        locals.extend([T::I64, T::I64]);
+                        for l in 0..n {
+                            ins.extend([I::I32Const(l as i32), I::LocalSet(l as u32)]);
+                        }
+                        ins.extend([I::I64Const(5), I::LocalSet(n as u32 + 1), I::LocalGet(3), I::Drop]);
+                    } else {
+                        locals.push(T::I32);
+                        ins.extend([I::I32Const(1), I::LocalSet(0), I::Nop]);
+                    }
+                    ins.push(I::End);
+                    d.bodies.push(BodyD { locals, instrs: ins });
+                    d.exports.push(ExportD { name: format!("f{}", k), kind: wasm_encoder::ExportKind::Func, idx: k as u32 });
+                }
+                out.push(Input { id: format!("manylocals-{}-{}", n, pos), bytes: d.encode(), source: format!("bodysizes:locals:{}:{}", n, pos) });
+            }
+        }
+    }
     out
 }
 
@@ -1779,6 +1810,9 @@ pub fn edits_case(inp: &Input, script: &[Value], tag: &str) -> Value {
     let mut events = vec![];
     let mut init = Value::Null;
     for gc in [false, true] {
+        // the second run (edits, then the pass, then emission) has DWARF generation switched on: replacement functions have no
+        // place in the original code section, and the debug emitter must cope with that
+        let cfg = Cfg { dwarf: gc, ..cfg.clone() };
         let Ok(p) = run::parse(&inp.bytes, &cfg) else { return json!({"id": inp.id, "source": inp.source, "init": Value::Null, "events": [{"op": "parse-failed"}]}) };
         let mut m = p.module;
         let mut high = crate::edits::High::default();
